@@ -158,6 +158,25 @@ func (d *TypeDesc) Impl() string {
 	return ""
 }
 
+// TopShapeLabel names the shape of a top-level type for the label histograms:
+// "" for non-pointer types, else "top.ptr-chain.impl" / ".corpus" / ".other".
+func TopShapeLabel(d *TypeDesc) string {
+	if d.K != KPtr {
+		return ""
+	}
+	b := d
+	for b.K == KPtr {
+		b = b.Elem
+	}
+	switch {
+	case b.Impl() != "":
+		return "top.ptr-chain.impl"
+	case b.K == KNamed:
+		return "top.ptr-chain.corpus"
+	}
+	return "top.ptr-chain.other"
+}
+
 // ---------------------------------------------------------------- walking
 
 // Walk calls fn for d and every descriptor reachable from it (named struct
